@@ -292,8 +292,10 @@ class Report:
         # checks beyond the listed properties (ids X_...) keep their evidence apart from the manifest's evidence files
         evdir = EVIDENCE if not self.prop.startswith("X_") else os.path.join(ROOT, "evidence_extra")
         os.makedirs(evdir, exist_ok=True)
-        with open(os.path.join(evdir, self.prop + ".json"), "w") as f:
-            json.dump(ev, f, indent=1, default=str)
+        # NV_KEEP_EVIDENCE=1 (documentation runs of the thorough tier only): leave evidence/<id>.json of the last quick run alone
+        if not (os.environ.get("NV_KEEP_EVIDENCE") == "1" and self.tier == "thorough"):
+            with open(os.path.join(evdir, self.prop + ".json"), "w") as f:
+                json.dump(ev, f, indent=1, default=str)
         if self.tier == "thorough":
             # evidence/<id>.json is rewritten by every run; the last thorough run is also kept on its own
             tdir = os.path.join(ROOT, "evidence_thorough")
